@@ -50,6 +50,10 @@ func subset(r *hx.RNG, l []int) (a, b []int) {
 		case 5:
 			a = append(a, x)
 			b = append(b, x)
+		case 6:
+			if r.Bool() { // the same header line / parameter twice, both with the other value
+				b = append(b, x, x)
+			}
 		}
 	}
 	return
@@ -62,6 +66,9 @@ func randMessage(r *hx.RNG, d domain, kind byte, apiNum int) *message {
 	m.status = pick(r, d.statuses)
 	m.h, m.g = subset(r, d.headers)
 	m.q, m.r = subset(r, d.queries)
+	if r.Chance(1, 7) {
+		m.bad = r.Range(1, len(badQueries)-1)
+	}
 	return m
 }
 
@@ -234,6 +241,63 @@ func generate(cfg *hx.Config) []hx.Case {
 		}
 	}
 
+	// 1b. every failure path of every verifier type (expectation unmet in each
+	// of its ways, input unparseable, met), as API and as non-API traffic, as
+	// request and as response, with one and with two verifiers of the type
+	for _, ctx := range []string{"%s", "Gn(%s,%s2)", "F90%cn(%s;%s2)", "F90%cn(Gn(%s3,%s);%s2)"} {
+		for _, lt := range leafTypes {
+			for _, ft := range []byte("hq") {
+				if !strings.Contains(ctx, "%c") && ft != 'h' {
+					continue
+				}
+				tok := instantiate(ctx, lt, ft)
+				if _, err := parseTree(tok); err != nil {
+					panic(tok + ": " + err.Error())
+				}
+				var msgs []string
+				for _, api := range []bool{false, true} {
+					for _, kind := range []byte("qs") {
+						for _, v := range pathVariants(lt) {
+							m := v
+							m.kind, m.api = kind, api
+							for _, cond := range []bool{false, true} {
+								mm := m
+								if cond { // make filter 90 match
+									mm.h = append(append([]int{}, mm.h...), 90)
+									if mm.bad == 0 {
+										mm.q = append(append([]int{}, mm.q...), 90)
+									}
+								}
+								msgs = append(msgs, mm.token())
+								if !strings.Contains(ctx, "%c") {
+									break
+								}
+							}
+						}
+					}
+				}
+				for rep := 0; rep < 2; rep++ {
+					r := rng.Fork()
+					// shuffled so that each verifier meets the paths in a different order
+					sh := append([]string{}, msgs...)
+					for i := len(sh) - 1; i > 0; i-- {
+						j := r.Intn(i + 1)
+						sh[i], sh[j] = sh[j], sh[i]
+					}
+					kind := "SEQ"
+					if rep == 1 {
+						kind = "DIR"
+					}
+					in := append([]string{kind, tok, "Q"}, sh...)
+					in = append(in, "Q", "R", "Q")
+					in = append(in, sh[:len(sh)/3]...)
+					in = append(in, "Q")
+					add("path", in)
+					cfg.Count("gen=failure_paths")
+				}
+			}
+		}
+	}
 	// 2. random trees and histories
 	for k := 0; k < nRandom; k++ {
 		r := rng.Fork()
@@ -326,4 +390,39 @@ func bucket(n int) int {
 	default:
 		return 32
 	}
+}
+
+// pathVariants lists, for one verifier type placed as leaves 1, 2 and 3, the
+// messages that drive it down each of its code paths.
+func pathVariants(lt byte) []message {
+	var vs []message
+	switch lt {
+	case 's':
+		for _, st := range []int{0, 1, 2, 3} {
+			vs = append(vs, message{status: st})
+		}
+	case 'h':
+		// absent / wanted value / other value / both values, for leaf 1 (wants "1") and leaf 2 (wants presence)
+		for _, hv := range [][2][]int{{nil, nil}, {{1}, nil}, {nil, {1}}, {{1}, {1}}, {{2}, nil}, {nil, {2}}, {{1, 2}, {3}}, {{3}, {1, 2}}, {nil, {1, 1}}, {nil, {1, 1, 2}}} {
+			vs = append(vs, message{h: hv[0], g: hv[1]})
+		}
+	case 'm':
+		for _, me := range []int{0, 1, 2, 3} {
+			vs = append(vs, message{method: me})
+		}
+	case 'u', 'p':
+		for _, pa := range []int{0, 1, 2, 3} {
+			vs = append(vs, message{path: pa})
+		}
+	case 'q':
+		for _, qv := range [][2][]int{{nil, nil}, {{1}, nil}, {nil, {1}}, {{1}, {1}}, {{2}, nil}, {nil, {2}}, {{1, 2}, {3}}, {{3}, {1, 2}}, {nil, {1, 1}}, {nil, {1, 1, 2}}} {
+			vs = append(vs, message{q: qv[0], r: qv[1]})
+		}
+		for b := 1; b < len(badQueries); b++ {
+			vs = append(vs, message{bad: b}, message{bad: b, path: 1})
+		}
+	case 'f':
+		vs = append(vs, message{}, message{bad: 1})
+	}
+	return vs
 }
